@@ -13,7 +13,7 @@
    exercised by the harness on every case). *)
 From Coq Require Import List NArith ZArith Sorted.
 From Mamba Require Import Dawg.Model Dawg.Spec Dawg.CodecModel Dawg.CodecVarint Dawg.CodecWf
-  Dawg.CodecEncode Dawg.CodecIso Dawg.CodecRoundtrip Dawg.CodecCheck.
+  Dawg.CodecEncode Dawg.CodecIso Dawg.CodecRoundtrip Dawg.CodecCheck Dawg.CodecStable.
 Import ListNotations.
 Local Open Scope N_scope.
 
@@ -43,6 +43,15 @@ Theorem C14_encode_each_node_once : forall s d, wf_dawg s d ->
     (forall x, In x sorted <-> exists k, reach s d k /\ x = nid (node_at s k)).
 Proof. exact gob_encode_once. Qed.
 Print Assumptions C14_encode_each_node_once.
+
+(* Fuel only decides whether the traversal is cut short: for every amount of fuel GobEncode
+   either runs out of it or returns the one result; it never panics. *)
+Theorem C14_encode_never_panics : forall s d, wf_dawg s d ->
+  exists b f0, forall fuel,
+    ((f0 <= fuel)%nat -> gob_encode fuel s d = Ok b) /\
+    (gob_encode fuel s d = Ok b \/ gob_encode fuel s d = NoFuel).
+Proof. exact gob_encode_never_panics. Qed.
+Print Assumptions C14_encode_never_panics.
 
 (* The round trip, for every well-formed automaton, any byte alphabet and any number of links
    per node (the count is a varint): GobEncode succeeds, GobDecode of its output (into any
@@ -96,6 +105,11 @@ Print Assumptions C14_domain_check_sound.
 Definition ex_words : list word := flat_map (fun c => [[N.of_nat c]; [N.of_nat c; 7]]) (seq 0 200).
 Definition ex_store : store := match new_dawg ex_words with Ok (Some s) => s | _ => sempty end.
 Definition ex_fuel : nat := (100 * 1000)%nat.
+
+(* ... and [NoFuel] does occur below the threshold *)
+Example C14_fuel_nonvacuous :
+  gob_encode 10 ex_store 0 = NoFuel /\ exists b, gob_encode ex_fuel ex_store 0 = Ok b.
+Proof. split; [vm_compute; reflexivity|]. eexists. vm_compute. reflexivity. Qed.
 
 Example C14_roundtrip_nonvacuous :
   wf_dawg ex_store 0 /\
